@@ -79,13 +79,15 @@ CFG = {
                   "offending continuation byte (error_kind_and_offset_partial, error_offset_validPrefixLen, "
                   "validPrefixLen_spec), line/column = LF line/column of that offset through the 8-byte newline kernel "
                   "(error_linecol, line_and_column_eq); encode/decode round trips for every scalar value (decode_encode, "
-                  "encode_decode, encode_none_iff_not_scalar). The property's 'offset = longest valid prefix' holds for five "
+                  "encode_decode, encode_none_iff_not_scalar), also as statements about the spec codec of Spec/Utf8 via the model-to-spec "
+                  "links encode_eq_spec / decode_eq_spec (spec_decode_encode, spec_encode_decode). The property's 'offset = longest valid prefix' holds for five "
                   "kinds (error_offset_partial) and is refuted for InvalidContinuationByte (error_offset_refuted, finding F6, "
                   "[C3 28]).",
     "level_note": "Trusts Lean kernel + bv_decide certificate checker (word/lane lemmas in Proof/Utf8*.lean), the rs2lean "
                   "translation of the word kernels cut from the source, the lane semantics of the AVX2 intrinsics "
-                  "(alignr/permute2x128 as 'previous N bytes'; hand-written lane expression of check_block, tied by "
-                  "the raw-kernel correspondence only), from_le/ne_bytes on a little-endian host, and the differential harness.",
+                  "(alignr/permute2x128 as 'previous N bytes', their source text pinned in Generated/C13.lean; the lane "
+                  "expression of check_block is regenerated from source by the lanes translator and proved equal to the model's, "
+                  "theorem lanes_generated_eq), from_le/ne_bytes on a little-endian host, and the differential harness.",
     "technique": "Lean 4 proof (automaton simulation + bv_decide lane/word lemmas); differential correspondence of scalar, "
                  "broadword, raw AVX2 kernel, simd wrapper and dispatcher vs the compiled model",
     "variants": [{"features": []}],
@@ -95,10 +97,12 @@ CFG = {
                    "SuccinctlyVerif/Proof/Utf8Avx2.lean", "SuccinctlyVerif/Proof/Utf8Codec.lean",
                    "SuccinctlyVerif/Proof/Utf8Broadword.lean", "SuccinctlyVerif/Proof/Utf8BroadwordMain.lean",
                    "SuccinctlyVerif/Proof/Utf8Prefix.lean", "SuccinctlyVerif/Proof/Utf8LineCol.lean",
-                   "SuccinctlyVerif/Proof/Utf8RoundTrip.lean",
+                   "SuccinctlyVerif/Proof/Utf8RoundTrip.lean", "SuccinctlyVerif/Proof/Utf8SpecLink.lean",
                    "SuccinctlyVerif/Model/Utf8.lean", "SuccinctlyVerif/Spec/Utf8.lean"],
     "required_theorems": ["SV.Props.C13.scalar_ok_iff", "SV.Props.C13.avx2_accept_iff", "SV.Props.C13.simd_engine_agrees", "SV.Props.C13.broadword_accept_iff", "SV.Props.C13.engines_agree", "SV.Props.C13.validPrefixLen_spec", "SV.Props.C13.error_linecol", "SV.Props.C13.decode_encode", "SV.Props.C13.encode_decode",
-                          "SV.Props.C13.error_kind_and_offset_partial", "SV.Props.C13.error_offset_refuted"],
+                          "SV.Props.C13.encode_eq_spec", "SV.Props.C13.decode_eq_spec", "SV.Props.C13.spec_decode_encode",
+                          "SV.Props.C13.error_kind_and_offset_partial", "SV.Props.C13.error_offset_refuted",
+                          "SV.Props.C13.lanes_generated_eq"],
     "generated": ["C13:"],
     "allow_bv_decide": True,
     "nontrivial": _c13_nontrivial,
@@ -113,6 +117,13 @@ CFG = {
 # file's text does not depend on where the workspace lives
 _REL = os.path.relpath(_SYNTH, _REPO)
 EXTRACT = {
+    # the `err` lane DAG of `check_block`, regenerated from source on every run (tools/rs2lean.py kind
+    # "lanes"): inputs are the chunk lane and the three shifted inputs prev1/prev2/prev3, whose
+    # cross-lane definitions (permute2x128 + alignr) are recorded as source text, not translated
+    "lanes": [
+        ("check_block", "src/text/utf8/simd_x86.rs", "check_block",
+         {"inputs": ["chunk", "prev1", "prev2", "prev3"], "outputs": ["err"]}),
+    ],
     "kernels": [
         ("utf8_non_ascii", _REL, "utf8_non_ascii", None),
         ("utf8_newline_mask", _REL, "utf8_newline_mask", None),
